@@ -17,6 +17,8 @@ of Simulation.save_results regenerated from the source)
    every crash; resumed runs finish with the results of the plain run; none lost, none duplicated).
 """
 import json
+import math
+import random
 
 import common
 from common import coq_lit, Nat, CoqRaw, Some
@@ -209,7 +211,48 @@ def group_events(ctx, what, events, gs_opt, loaded, case, coq_group, meta_group)
         meta_group.append(dict(case, group_events=events))
 
 
-def real_oracle(ctx, out, coq_cases, coq_meta, coq_group=None, meta_group=None):
+def re_of(t):
+    """real part of a time as the runner returns it: float | {'re': .., 'im': ..} | [re, im]"""
+    if isinstance(t, dict):
+        return float(t['re'])
+    if isinstance(t, list):
+        return float(t[0])
+    return float(t)
+
+
+def restored_counters(ctx, rec, case, spec, minit, units, restores):
+    """Oracle + model case for the counters an engine is re-created with (what 'resuming from a checkpoint' means for the
+    algorithm state): evolved_time / sweeps / trunc_err / number of sweep_stats entries of the engine right after
+    Simulation.init_algorithm of the resumed process == the values stored in resume_data of the loaded file (exactly,
+    whatever the values are: 0, 0.0, empty, equal to a default or not); the resumed simulation starts with the records
+    of the file."""
+    cc, ei = rec.get('ckpt_counters'), rec.get('engine_init') or []
+    if cc is None or not ei:
+        return                      # no resume data in the file / the resume failed before the engine existed
+    e = ei[0]
+    diffs = ['%s = %s, the checkpoint holds %s' % (k, e.get(k), cc[k]) for k in sorted(cc) if e.get(k) != cc[k]]
+    if len(ei) != 1:
+        diffs.append('%d engines created during the resume' % len(ei))
+    if e.get('n_records') != rec['ckpt_measurements']:
+        diffs.append('the resumed simulation starts with %s measurement records, the file holds %d' % (e.get('n_records'), rec['ckpt_measurements']))
+    if not e.get('loaded'):
+        diffs.append('loaded_from_checkpoint is False')
+    if diffs:
+        ctx.fail('oracle', 'engine %s re-created from checkpoint %d (%s; algorithm options start_time=%s, start_trunc_err=%s): '
+                 % (spec['alg'], rec['at'], rec['mode'], spec.get('start_time'), spec.get('start_trunc_err')) + '; '.join(diffs)[:600],
+                 dict(case, ckpt_counters=cc, engine_init=ei), match_key='C18:real:restored-counter')
+    tk = 'evolved_time' if 'evolved_time' in cc else 'sweeps'
+    k_snap = rec['ckpt_measurements'] - (1 if minit else 0) - 1
+    if tk in cc and tk in e and k_snap >= 0:
+        sv, rv = (units(cc[tk]), units(e[tk])) if tk == 'evolved_time' else (cc[tk], e[tk])
+        if min(sv, rv) < 0 or max(sv, rv) >= 5000:
+            ctx.fail('correspondence', '%s of the checkpoint / the re-created engine (%s / %s) lies before the start of the run: not a time of the model'
+                     % (tk, cc[tk], e[tk]), dict(case, ckpt_counters=cc, engine_init=ei))
+        else:
+            restores.append((Nat(k_snap), Nat(sv), Nat(rv), Nat(int(e.get('n_records') or 0))))
+
+
+def real_oracle(ctx, out, coq_cases, coq_meta, coq_group=None, meta_group=None, coq_restore=None, meta_restore=None):
     coq_group = [] if coq_group is None else coq_group
     meta_group = [] if meta_group is None else meta_group
     spec = out['spec']
@@ -236,9 +279,20 @@ def real_oracle(ctx, out, coq_cases, coq_meta, coq_group=None, meta_group=None):
         ctx.fail('oracle', 'plain run: final state has psi.grouped = %s' % plain.get('psi_grouped'), base, match_key='C18:real:grouping')
     group_events(ctx, 'plain run', plain.get('group', []), gs_opt, False, dict(base, at=None), coq_group, meta_group)
     tkey = 'evolved_time' if is_te else 'sweeps'
-    unit = spec.get('dt', 0.05) if is_te else 1
-    ptimes = [int(round(t / unit)) for t in pm[tkey]]
+    # model time = number of time steps since the option start_time (real parts; Model/ResumeProto.v starts its clock at 0)
+    unit = re_of(spec.get('dt', 0.05)) if is_te else 1
+    t0 = float(spec.get('start_time', 0.)) if is_te else 0
+    units = lambda t: int(round((re_of(t) - t0) / unit))  # noqa: E731
+    ptimes = [units(t) for t in pm[tkey]]
     ints = []
+    restores = []
+    # the engine of the uninterrupted run starts from the documented initial values of its counters
+    pe = plain.get('engine_init') or []
+    exp0 = ({'evolved_time': [t0, 0.], 'trunc_err': [float(x) for x in spec.get('start_trunc_err', [0., 1.])]} if is_te
+            else {'sweeps': 0, 'n_sweep_stats': [0]})
+    if len(pe) != 1 or any(pe[0].get(k) != v for k, v in exp0.items()) or pe[0].get('loaded'):
+        ctx.fail('oracle', 'plain run: the engine starts with %s, expected %s (options start_time / start_trunc_err; a fresh engine)'
+                 % (pe, exp0), base, match_key='C18:real:plain-engine')
     for rec in out['interrupted']:
         c, mode = rec['at'], rec['mode']
         case = dict(base, at=c, mode=mode)
@@ -272,6 +326,7 @@ def real_oracle(ctx, out, coq_cases, coq_meta, coq_group=None, meta_group=None):
                 ctx.fail('oracle', 'save_psi=False, save_resume_data=False: resume did not refuse with the documented ValueError: %s'
                          % (e[:300] or 'it finished'), case, match_key='C18:real:resume-without-state')
             continue
+        restored_counters(ctx, rec, case, spec, minit, units, restores)
         if 'error' in rec:
             e = rec['error']
             key = 'C18:real:resume-raises'
@@ -353,12 +408,21 @@ def real_oracle(ctx, out, coq_cases, coq_meta, coq_group=None, meta_group=None):
             k_snap = rec['ckpt_measurements'] - (1 if minit else 0) - 1
             ck_g = [g for g in rec.get('ckpt_psi_grouped', []) if g is not None]
             if k_snap >= 0 and ck_g and len(set(ck_g)) == 1:
-                ints.append(((Nat(k_snap), Nat(ck_g[0])), [Nat(int(round(t / unit))) for t in rm[tkey]], Nat(rs.get('psi_grouped', 1))))
+                if min(units(t) for t in rm[tkey]) < 0:
+                    ctx.fail('correspondence', 'resumed run measured at %s %s before the start of the run (%s): not a time of the model'
+                             % (tkey, rm[tkey], t0), case)
+                    continue
+                ints.append(((Nat(k_snap), Nat(ck_g[0])), [Nat(units(t)) for t in rm[tkey]], Nat(rs.get('psi_grouped', 1))))
             elif len(set(ck_g)) > 1:
                 ctx.fail('oracle', "results['psi'] and resume_data['psi'] of the checkpoint have different grouping %s" % ck_g, case,
                          match_key='C18:real:grouping')
-    T = int(round(spec.get('final_time', 0.4) / unit)) if is_te else spec.get('max_sweeps', 3)
+    # the loop runs while evolved_time < final_time: final_time need not be a multiple of the time step
+    T = int(math.ceil((spec.get('final_time', 0.4) - t0) / unit - 1.e-6)) if is_te else spec.get('max_sweeps', 3)
     N = spec.get('N_steps', 2) if is_te else spec.get('N_sweeps_check', 1)
+    if spec.get('protocol_model', True) and restores and coq_restore is not None:
+        coq_restore.append(coq_lit((is_te, Nat(T), Nat(N), minit, Nat(gs_opt), restores)))
+        meta_restore.append(dict(base, restores=[[x.v for x in r] for r in restores],
+                                 restores_are='(snapshot index, counter in the file, counter of the re-created engine, records) in model units'))
     if spec.get('protocol_model', True):
         coq_cases.append(coq_lit((is_te, Nat(T), Nat(N), minit, Nat(gs_opt), [Nat(t) for t in ptimes], Nat(plain.get('psi_grouped', 1)),
                                   [((k, t), g) for (k, t, g) in ints])))
